@@ -409,7 +409,10 @@ func c17Contract(env *core.Env) {
 	for _, src := range []string{"%nosuch", "iif(true, %nosuch)", "Patient.name.where(%nosuch = 1)", "Patient.name.select(%nosuch)", "%nosuch.count()",
 		// reached for some items only
 		"Patient.name.select(iif(use = 'official', %nosuch, family))", "Patient.name.select(iif(use.exists(), family, %nosuch))", "Patient.name.where(iif(use.exists(), %nosuch = 1, true))",
-		"Patient.name.exists(iif(use.exists(), true, %nosuch = 1))", "Patient.name.all(iif(use.exists(), true, %nosuch = 1))", "Patient.name.given.select(iif($this = 'Bée', %nosuch, $this))"} {
+		"Patient.name.exists(iif(use.exists(), true, %nosuch = 1))", "Patient.name.all(iif(use.exists(), true, %nosuch = 1))", "Patient.name.given.select(iif($this = 'Bée', %nosuch, $this))",
+		// as the operand that does not decide a Boolean operator
+		"false and %nosuch", "%nosuch and false", "true or %nosuch", "%nosuch or true", "false implies %nosuch", "%nosuch implies true", "true xor %nosuch", "(1 = 2) and (%nosuch = 1)", "(1 = 1) or %nosuch.exists()",
+		"Patient.name.where(given = 'Nobody' and family = %nosuch)", "Patient.name.where(family.exists() or %nosuch)", "Patient.name.all(family.empty() implies %nosuch)", "{} and %nosuch", "1 + %nosuch", "{} = %nosuch", "{} + %nosuch"} {
 		rr := fx.Eval(env, src, in, nil, nil)
 		env.Cover("unknown-variable")
 		if rr.IsPanic() {
@@ -544,6 +547,19 @@ func c17Contract(env *core.Env) {
 	rr = fx.Eval(env, "Patient.boom()", one, co, nil)
 	if !rr.IsError() || !errors.Is(rr.Err, errProbe) {
 		env.Violatef("C17/custom/error-not-passed-through", "`Patient.boom()`: expected the function's own error, observed %s", trunc(rr.Short(), 100))
+	}
+	// ... wherever the call stands: as the operand that does not decide a Boolean operator, in criteria, as an argument
+	for _, src := range []string{"false and Patient.boom().exists()", "Patient.boom().exists() and false", "true or Patient.boom().exists()", "false implies Patient.boom().exists()", "Patient.name.where(family = 'Nobody' and boom().exists())",
+		"Patient.name.exists(family.exists() or boom().exists())", "iif(true, Patient.boom())", "Patient.name.select(boom())", "{} and Patient.boom().exists()", "Patient.boom().count() + 1", "Patient.name.all(boom().empty())"} {
+		before := p.calls
+		rb := fx.Eval(env, src, one, co, nil)
+		env.Cover("custom-error-in-position")
+		switch {
+		case rb.IsPanic():
+			env.Violatef(fx.PanicSig("C17", rb), "`%s` => %s", src, rb.Short())
+		case !rb.IsError() || !errors.Is(rb.Err, errProbe):
+			env.Violatef("C17/custom/error-not-passed-through/in-position", "`%s`: expected the function's own error, observed %s (the function was called %d time(s))", src, trunc(rb.Short(), 100), p.calls-before)
+		}
 	}
 	// a function registered for one Compile is not visible in another
 	_, cr := fx.Compile(env, "Patient.one()")
